@@ -2888,6 +2888,19 @@ static void TWrite(long DTime, char* dest, size_t DestSize) {
 
 /*--------------------------------------------------------------------------*/
 
+/* close an output file: what is still in the stdio buffer is written now, and
+   an error at this point is a write error like one reported by an earlier
+   ChkIO() - fclose() alone would lose it */
+
+static void CloseOutFile(FILE** ppFile, tErrorNum ErrNum) {
+    if (*ppFile) {
+        errno = 0;
+        fflush(*ppFile);
+        ChkIO(ErrNum);
+    }
+    CloseIfOpen(ppFile);
+}
+
 static void AssembleFile_InitPass(void) {
     static char DateS[31], TimeS[31];
     int         z;
@@ -3291,15 +3304,14 @@ static void AssembleFile(char* Name) {
                 fprintf(ShareFile, "; Ende Include File for Assembler Program\n");
                 break;
             }
-            ChkIO(ErrNum_ListWrError);
-            CloseIfOpen(&ShareFile);
+            CloseOutFile(&ShareFile, ErrNum_ListWrError);
         }
 
         if (MacProOutput) {
-            CloseIfOpen(&MacProFile);
+            CloseOutFile(&MacProFile, ErrNum_ListWrError);
         }
         if (MacroOutput && (PassNo == 1)) {
-            CloseIfOpen(&MacroFile);
+            CloseOutFile(&MacroFile, ErrNum_FileWriteError);
         }
 
 #ifdef ASL_VERIF
@@ -3510,7 +3522,7 @@ static void AssembleFile(char* Name) {
     }
 #endif
 
-    CloseIfOpen(&LstFile);
+    CloseOutFile(&LstFile, ErrNum_ListWrError);
 
     /* verstecktes */
 
